@@ -1,6 +1,11 @@
-"""sys.monitoring (3.12) PY_START recorder restricted to repository code
-objects: which moclo functions did this run actually enter?  Each code object
-is reported once and then DISABLEd, so the overhead is negligible."""
+"""sys.monitoring (3.12) PY_START + LINE recorder restricted to repository code
+objects: which moclo functions did this run actually enter, and which of their
+statements did it execute?  Each code object / statement is reported once and
+then DISABLEd, so the overhead is negligible.  `executable_lines` derives the
+statement lines of a source file from its compiled code objects, so that the
+evidence can say which statements of a property's anchored files no case of the
+workload ever executed (a hole in the workload, not a verdict)."""
+import os
 import sys
 
 from . import boot
@@ -11,6 +16,7 @@ class Recorder(object):
 
     def __init__(self):
         self.seen = set()
+        self.lines = {}
         self.active = False
 
     def start(self):
@@ -30,8 +36,17 @@ class Recorder(object):
                 self.seen.add("%s:%s" % (rel, code.co_qualname))
             return mon.DISABLE
 
+        lines = self.lines
+
+        def on_line(code, line):
+            fn = code.co_filename
+            if fn.startswith(root):
+                lines.setdefault(fn[len(root) + 1:], set()).add(line)
+            return mon.DISABLE
+
         mon.register_callback(self.TOOL, mon.events.PY_START, on_start)
-        mon.set_events(self.TOOL, mon.events.PY_START)
+        mon.register_callback(self.TOOL, mon.events.LINE, on_line)
+        mon.set_events(self.TOOL, mon.events.PY_START | mon.events.LINE)
         self.active = True
 
     def stop(self):
@@ -39,6 +54,65 @@ class Recorder(object):
             mon = sys.monitoring
             mon.set_events(self.TOOL, 0)
             mon.register_callback(self.TOOL, mon.events.PY_START, None)
+            mon.register_callback(self.TOOL, mon.events.LINE, None)
             mon.free_tool_id(self.TOOL)
             self.active = False
         return self.seen
+
+
+def executable_lines(path):
+    """{line: qualname} of every statement line inside a function body of `path`
+    (module- and class-level statements run at import and say nothing)."""
+    with open(path) as f:
+        src = f.read()
+    out = {}
+
+    def walk(code, infunc):
+        if infunc:
+            for _, _, line in code.co_lines():
+                if line is not None and line != code.co_firstlineno:
+                    out.setdefault(line, code.co_qualname)
+        for c in code.co_consts:
+            if hasattr(c, "co_lines"):
+                # a class body is entered at import; functions below it are what counts
+                isclass = not (c.co_flags & 0x0002) and not infunc and c.co_name != "<module>" and _is_class_body(c)
+                walk(c, infunc or not isclass)
+
+    def _is_class_body(c):
+        return "__module__" in c.co_names and "__qualname__" in c.co_names
+
+    walk(compile(src, path, "exec"), False)
+    return out
+
+
+def ranges(lines):
+    out, run = [], []
+    for n in sorted(lines):
+        if run and n == run[-1] + 1:
+            run.append(n)
+        else:
+            if run:
+                out.append(run)
+            run = [n]
+    if run:
+        out.append(run)
+    return ["%d" % r[0] if len(r) == 1 else "%d-%d" % (r[0], r[-1]) for r in out]
+
+
+def unreached_report(repo_root, files, reached_lines):
+    """per anchored file: number of function-body statement lines, how many the workload executed, and the rest as ranges
+    with the function they belong to"""
+    rep = {}
+    for rel in files:
+        path = os.path.join(repo_root, rel)
+        if not os.path.isfile(path):
+            continue
+        ex = executable_lines(path)
+        seen = reached_lines.get(rel, set())
+        miss = sorted(set(ex) - set(seen))
+        byfn = {}
+        for n in miss:
+            byfn.setdefault(ex[n], []).append(n)
+        rep[rel] = {"function_statement_lines": len(ex), "executed": len(set(ex) & set(seen)),
+                    "never_executed": {fn: ranges(v) for fn, v in sorted(byfn.items())}}
+    return rep
